@@ -45,8 +45,9 @@ def short(name):
 
 
 class Sym:
-    def __init__(self, fn):
+    def __init__(self, fn, rd=True):
         self.fn = fn
+        self.use_rd = rd
         self.defs = fn.defs()
         self._stable = {}
         self._memo = {}
@@ -89,6 +90,8 @@ class Sym:
 
     # ---- reaching definitions for re-assigned (but never mutably borrowed) locals
     def _rd_eligible(self, l):
+        if not self.use_rd:
+            return False
         if self._mutborrowed is None:
             self._scan_mut_borrows()
         ds = self.defs.get(l, [])
@@ -189,6 +192,11 @@ class Sym:
         elif self.stable(l):
             (bb, j, rv, _) = self.defs[l][0]
             e = self.rvalue(rv, bb, (bb, j))
+            plain_copy = rv[0] == "use" and rv[1][0] in ("c", "m") and len(rv[1][1]) == 1
+            if not self.use_rd and fn.local_name(l) and not plain_copy and unstable_locals(e):
+                # a named snapshot of re-assigned locals (`let end_x = x + coeffs.len()`):
+                # its value is frozen at the definition, so keep it as an atom of its own
+                e = ("local", l, fn.local_name(l))
         else:
             e = ("local", l, fn.local_name(l))
         self._memo[l] = e
